@@ -550,7 +550,30 @@ impl Prop for C04T {
                 }
             }
         }
+        let mut early = false;
+        if rng.chance(1, 12) {
+            // A query that is answered early: it is followed, in the same message, by a unit
+            // whose string payload holds a newline and is so long that the message overflows
+            // process's N byte buffer.  The query was executed, so its answer must be sent.
+            let small = *rng.pick(&[32usize, 64]);
+            let ctx: Vec<String> = Vec::new();
+            let first = loop {
+                let u = zoo_unit(&mut rng, m, &ctx);
+                if u.query && u.render().len() + 16 < small {
+                    break u;
+                }
+            };
+            let mut payload = b"a\n".to_vec();
+            payload.extend(std::iter::repeat(b'p').take(small + rng.below(40)));
+            let second = Unit { colon: true, mnems: vec!["ZOO".into(), "STR".into()], query: true, args: vec![quote(b'"', &payload)], ..Default::default() };
+            msgs = vec![Msg { units: vec![first, second], semi: false, lead: vec![] }];
+            n = small;
+            early = true;
+        }
         let mut sc = Scenario { prop: "C04".into(), seed, iface, cap: 0, n, msgs, ..Default::default() };
+        if early {
+            sc.set("early_answer", 1);
+        }
         let bytes = render(&sc.msgs).0;
         sc.scheds.push(gen::sched(&mut rng, &bytes));
         sc.scheds.push(gen::sched(&mut rng, &bytes));
@@ -559,6 +582,36 @@ impl Prop for C04T {
     fn check(&self, sc: &Scenario, st: &mut Stats) -> Verdict {
         let (bytes, _) = render(&sc.msgs);
         let v = |class: &str, detail: String| Verdict::Violation { class: class.into(), detail };
+        if sc.flag("early_answer") && sc.msgs.len() == 1 && sc.msgs[0].units.len() == 2 {
+            // the answer of the first unit alone (recording writer) ...
+            let fb = {
+                let mut b = sc.msgs[0].units[0].render();
+                b.push(b'\n');
+                b
+            };
+            let alone = exec(&run_exec(sc, fb.clone(), vec![0, fb.len()], Sink::Sim(None), vec![]), st);
+            if alone.unsupported || alone.crashed() {
+                return Verdict::Skip("skip:crashed(C05)");
+            }
+            let ok_query = alone.errors().is_empty() && alone.handlers().len() == 1 && !alone.responses().is_empty();
+            // ... must be what process sends for the message that later overflows its buffer
+            let p = exec(&process_exec(sc, bytes.clone(), 1), st);
+            if p.crashed() {
+                return Verdict::Skip("skip:crashed(C05)");
+            }
+            let executed = p.handlers().first().map(|h| h.0) == alone.handlers().first().map(|h| h.0);
+            if ok_query && executed && alone.responses().len() <= sc.n {
+                st.bump("reach:early_answer_then_overflow");
+                let got = p.responses();
+                if got.len() < alone.responses().len() || got[..alone.responses().len()] != alone.responses()[..] {
+                    return v(
+                        "response-lost",
+                        format!("the query was executed by process (N={}) but its response [{}] was not sent; sent [{}]\n    {}", sc.n, show(&alone.responses()), show(&got), brief(&p)),
+                    );
+                }
+            }
+            return Verdict::Held { nontrivial: false, sig: scenario_sig(sc) };
+        }
         // (1) the pass-through writer: every write_* and flush call, with suspensions
         let a = exec(&run_exec(sc, bytes.clone(), vec![0, bytes.len()], Sink::Sim(None), sc.sched(0).susp), st);
         if a.unsupported {
@@ -653,6 +706,6 @@ impl Prop for C04T {
         ]
     }
     fn probes(&self) -> Vec<&'static str> {
-        vec!["reach:responses_decoded", "reach:failed_unit_without_output", "reach:process_writer", "reach:writer_filled_exactly", "reach:response_exactly_fills_buffer", "fired:suspension", "fired:handler_error"]
+        vec!["reach:responses_decoded", "reach:failed_unit_without_output", "reach:process_writer", "reach:writer_filled_exactly", "reach:response_exactly_fills_buffer", "reach:early_answer_then_overflow", "fired:suspension", "fired:handler_error"]
     }
 }
